@@ -33,7 +33,6 @@ K_SHL = "C09-shl-negative-base-overflow"
 K_SHR = "C09-shr-count-range"
 K_BNOT = "C09-bitnot-no-range-check"
 K_FREXP = "C09-frexp-via-log2"
-K_CLAMP = "C09-clamp-panic"
 
 
 
@@ -617,8 +616,7 @@ def math_cases(run, rng, plan, pm, add, fail, model_diffs):
             run.count("B:math:clamp")
             got = enc_canon(o)
             if zcanon(got) != zcanon(exp):
-                known = K_CLAMP if ("panic" in o and flo > fhi) else None
-                fail("std.clamp", code, show(exp), show(got), known=known)
+                fail("std.clamp", code, show(exp), show(got))
         add(code, j)
     # -- libm functions: exploration (bit-for-bit expected on this platform, reported not judged),
     #    except that a non-finite value must never be observable and a finite libm result far from
@@ -682,12 +680,11 @@ def known_witnesses(run, binary, failures):
          ("[1 >> 9007199254740992]", [bits(1.0)], K_SHR),
          ("[~1e300]", [bits(-9.223372036854775808e18)], K_BNOT),
          ("[std.mantissa(9007199254740991)]", [bits(0.5)], K_FREXP)]
-    outs = core.run_harness(binary, "eval", [{"code": c} for c, _, _ in W] + [{"code": "std.clamp(1, 5, 2)"}])
+    outs = core.run_harness(binary, "eval", [{"code": c} for c, _, _ in W])
     status = {}
     for (c, exp, kid), o in zip(W, outs):
         ok = "ok" in o and canon_list(o["ok"]) == exp
         status.setdefault(kid, []).append((c, ok, json.dumps(o)[:120]))
-    status.setdefault(K_CLAMP, []).append(("std.clamp(1, 5, 2)", "panic" in outs[-1], json.dumps(outs[-1])[:120]))
     run.coverage["known_witnesses"] = {k: [{"code": c, "reproduces": ok, "answer": a} for c, ok, a in v]
                                        for k, v in status.items()}
     return status
